@@ -148,6 +148,7 @@ def _work(chunk):
             for par in LY.forests(4):
                 for fname, fn, ref in (('callable-name-ab', lambda t: t.name == 'ab', lambda k: pop['name'][k] == 'ab'),
                                        ('callable-true', lambda t: True, lambda k: True),
+                                       ('no-filter', None, lambda k: True),
                                        ('kw-milestone', None, lambda k: pop['milestone'][k] is True),
                                        ('kw-estimate', None, lambda k: value(pop, par, k, 'estimate') == 2)):
                     for target in ('tasks', 'W.remove_all', 'roots.remove_all', 'children.remove_all'):
